@@ -17,7 +17,7 @@ import (
 	"encoding/json"
 	"fmt"
 	"os"
-	"runtime/pprof"
+	"runtime/debug"
 	"sort"
 	"strconv"
 	"strings"
@@ -1010,11 +1010,7 @@ func replay(run *ev.Run) {
 
 func main() {
 	run := ev.Start("C15", "exploration")
-	if pf := os.Getenv("VERIF_C15_PPROF"); pf != "" { // manual experiments only
-		f, _ := os.Create(pf)
-		pprof.StartCPUProfile(f)
-		defer pprof.StopCPUProfile()
-	}
+	debug.SetGCPercent(800) // millions of short-lived strings, tiny live heap: trade memory for GC time
 	if run.Replay != "" {
 		replay(run)
 	}
@@ -1244,7 +1240,6 @@ func main() {
 	run.Assume("strings with an unterminated literal, quoted identifier, dollar quote or block comment (per the reference, agreed by DuckDB's error where it reaches the lexer error) are not judged")
 	run.Assume("comment stripping is judged on the masked text, the order every call site in query.go uses, with the has-comment flags of the real scanSQLFeatures; the documented separators are: line comment -> nothing (newline kept), block comment -> one space")
 	run.Assume("the reference lexer is trusted only as far as DuckDB confirmed it: executable shapes SELECT [(]*<literal>[)]* [alias], SELECT 7 AS <name>, <word> <literal> (type-name error) and comment-only strings, plus unterminated-error agreement")
-	pprof.StopCPUProfile()
 	run.Finish()
 }
 
